@@ -1,8 +1,8 @@
 //! K5 — `Retry::call` (tarpc/src/client/stub/retry.rs). BOUNDED: the policy declines within 3 attempts.
-//! NOT RUNNABLE with Kani 0.68: `tracing::trace!` in the body of Retry::call makes kani-compiler
-//! panic (intrinsics.rs:243) for every harness from which it is reachable, and stubbing tracing's
-//! macro support functions does not remove the offending item. The harness is kept for a newer Kani;
-//! the registered check is the native exhaustive stand-in in /verif/native (labelled bounded).
+//! `tracing::trace!` in the body of Retry::call is reachable: tracing's dispatcher entry points are
+//! stubbed to "no subscriber interested" (see verif_kani_support), which is what keeps kani-compiler
+//! 0.68 from dying in intrinsics.rs:243.  The clock is symbolic (any `now`, any deadline), so a retry
+//! decision that consulted the clock would be explored on both sides.
 use super::*;
 use crate::client::stub::Stub;
 use crate::verif_kani_support::{any_instant, run};
@@ -37,6 +37,10 @@ impl<'a> stub::Stub for Backend<'a> {
 /// C20: the retry stub re-issues the *identical* request (same Arc) until its policy declines,
 /// passes attempt numbers 1, 2, 3, ... to the policy, and returns the last result unchanged.
 #[kani::proof]
+#[kani::stub(tracing::__macro_support::__is_enabled, crate::verif_kani_support::tracing_never_enabled)]
+#[kani::stub(tracing::__macro_support::MacroCallsite::interest, crate::verif_kani_support::tracing_interest_never)]
+#[kani::stub(tracing::Event::dispatch, crate::verif_kani_support::tracing_no_dispatch)]
+#[kani::stub(std::time::Instant::now, crate::verif_kani_support::fake_now)]
 #[kani::unwind(5)]
 fn k5_retry_attempts_numbered_and_last_result() {
     let calls = Cell::new(0u32);
@@ -64,6 +68,7 @@ fn k5_retry_attempts_numbered_and_last_result() {
         decisions[if k < 3 { k as usize } else { 2 }]
     };
     let retry = Retry::new(Backend { calls: &calls, same_request: &same, first_ptr: &first_ptr, results }, policy);
+    crate::verif_kani_support::set_now(any_instant());
     let ctx = context::Context { deadline: any_instant(), trace_context: Default::default() };
     let req: u32 = kani::any();
     let out = run(retry.call(ctx, req));
